@@ -77,6 +77,37 @@ impl VerifScript {
         });
     }
 
+    /// `DialFailure` for `address` with an arbitrary error kind.
+    pub fn inject_dial_failure_with(&self, connection_id: usize, address: Multiaddr, error: DialError) {
+        self.inner.lock().events.push_back(TransportEvent::DialFailure {
+            connection_id: ConnectionId::from(connection_id),
+            address,
+            error,
+        });
+    }
+
+    /// `OpenFailure` with an arbitrary error kind per address.
+    pub fn inject_open_failure_with(&self, connection_id: usize, errors: Vec<(Multiaddr, DialError)>) {
+        self.inner.lock().events.push_back(TransportEvent::OpenFailure {
+            connection_id: ConnectionId::from(connection_id),
+            errors,
+        });
+    }
+
+    /// `ConnectionOpened` for `address` after the attempts in `errors` failed with the given kinds.
+    pub fn inject_connection_opened_with(
+        &self,
+        connection_id: usize,
+        address: Multiaddr,
+        errors: Vec<(Multiaddr, DialError)>,
+    ) {
+        self.inner.lock().events.push_back(TransportEvent::ConnectionOpened {
+            connection_id: ConnectionId::from(connection_id),
+            address,
+            errors,
+        });
+    }
+
     pub fn set_failures(&self, open: bool, dial: bool, negotiate: bool, accept: bool) {
         let mut inner = self.inner.lock();
         inner.fail_open = open;
